@@ -273,7 +273,27 @@ def hash_seed_probe(eng, tier, seed):
             "violations": violations}
 
 
-EXTRA_CHECKS = [determinism_census, hash_seed_probe]
+def targets_come_from_the_requested_places(eng, tier, seed):
+    """'none taken from lookup directories': the definitions that read_namespace / read_files read as TARGETS are built
+    from the root directory / the requested files only.  This is the provenance half of the modular effect contract of
+    specs/c19.py (declared vs inferred, pyvc/effects.py); the obligations of the entry points and of the functions that
+    construct the target and lookup lists are re-checked here under this property."""
+    import importlib
+
+    c19 = importlib.import_module("specs.c19")
+    out = c19.effect_check(eng, tier, seed)
+    keep = ("_namespace.read_namespace/", "_namespace.read_files/", "_namespace._complete_read_function/",
+            "_namespace._construct_dsdl_definitions_from_namespaces/", "_namespace._construct_dsdl_definitions_from_files/",
+            "_namespace._construct_lookup_directories_path_list/", "_namespace_reader.read_definitions/",
+            "_namespace_reader._read_definitions/")
+    obs = [o for o in out.get("obligations", []) if o["name"].startswith(keep)]
+    return {"check": "provenance of the target definitions (effect contract shared with C19)", "obligations": obs,
+            "violations": [], "functions_analysed": sorted(set(o["function"] for o in obs))}
+
+
+from .fsprobe import extra_spelling_probe  # noqa: E402  bounded stand-in for the file-system part (shared with C15)
+
+EXTRA_CHECKS = [determinism_census, hash_seed_probe, targets_come_from_the_requested_places, extra_spelling_probe]
 
 
 # ------------------------------------------------------------------------------------------------ bounded stand-ins
